@@ -108,12 +108,18 @@ def run(ctx: Ctx):
 
     trees = {rx.src(t, b): t for t, b, sem in todo}
 
+    import re as _re
+
     def classify(what, regex_src):
+        if _re.search(r"\\ [wWdDsSntr]", regex_src):
+            return "escaped-space-before-class-letter"
         # an unsatisfiable character class leaves a dead, non-accepting state in the matcher: the mismatch is reported one byte late
         if has_empty_class(trees.get(regex_src)) and what in ("no-fail-when-dead", "byte-class:accepts-extra-byte"):
             return "late-mismatch:empty-character-class"
         return None
-    lang.check_languages(ctx, [(rx.src(t, b), sem, None) for t, b, sem in todo], rng, "c07", strings_budget=strings_budget, sweep_states=sweep_states, per_batch=per_batch, classify=classify)
+    # probes for the escaped-space lexing quirk (known finding): source text written by hand, oracle from the documented meaning
+    probes = [("/\\ d/", rx.lit(b" d")), ("/a\\ s+/", rx.seq(rx.lit(b"a "), rx.cat(rx.mkset([115]), rx.star(rx.mkset([115]))))), ("/x\\ \\ y/", rx.lit(b"x  y"))]
+    lang.check_languages(ctx, [(rx.src(t, b), sem, None) for t, b, sem in todo] + [(ps, sem, [b" d", b"5", b"a s", b"a\t", b"x  y"]) for ps, sem in probes], rng, "c07", strings_budget=strings_budget, sweep_states=sweep_states, per_batch=per_batch, classify=classify)
     ctx.floor("prefix_observations", 20000 if quick else 300000)
     ctx.floor("sweeps", 300)
     ctx.rule = ("case = (regex, string of class representatives) observed at every prefix through end() on a state copy, or (regex, derivative "
